@@ -480,6 +480,16 @@ func main() {
 			// into the identical micro-order: the same burst is repeated
 			rounds = 40
 		}
+		// a violation that depends on what the caller did before (a history):
+		// what the caller's runtime keeps between calls (sync.Pool, the garbage
+		// collector) is not under the harness's control, so the history is
+		// repeated a few times and any violation of the property by the launch
+		// under test counts as the reproduction (the class may differ: the pid of
+		// another daemon is "wrong-pid" or "wrong-handler" depending on whose)
+		historyReplay := len(rf.History) > 0 || len(rf.Prior) > 0
+		if historyReplay && rounds < 4 {
+			rounds = 4
+		}
 		for round := 0; round < rounds; round++ {
 			// the failed launches that came before, in this process, first
 			// (the complete history of the process, when the short form did not reproduce)
@@ -494,8 +504,8 @@ func main() {
 			}
 			for _, pp := range rf.Prior {
 				for _, o := range runGroup(base, []plan{pp}) {
-					if o.Infra != "" || o.Viol != nil {
-						fmt.Println("REPLAY infra: the earlier failing launch did not go as recorded:", o.Infra, o.Viol)
+					if o.Infra != "" {
+						fmt.Println("REPLAY infra: the earlier failing launch did not go as recorded:", o.Infra)
 						os.RemoveAll(base)
 						os.Exit(2)
 					}
@@ -507,7 +517,7 @@ func main() {
 					os.RemoveAll(base)
 					os.Exit(2)
 				}
-				if o.Viol != nil && o.Viol.Class == rf.Violation.Class {
+				if o.Viol != nil && (o.Viol.Class == rf.Violation.Class || historyReplay) {
 					for _, e := range o.Events {
 						fmt.Println("  " + e)
 					}
